@@ -862,10 +862,13 @@ fn run_armor_lines(plan: &Value, rec: &mut Rec) {
     let m = measured(0, || armor_parse_all(&bytes, cap));
     let t_full = thread_cpu_seconds() - c0;
     judge(rec, plan, plan.clone(), &format!("armor-line:{what}"), &format!("armor input with a {n}-octet unterminated {what}"), len, 0, &m);
-    // Work: thread CPU time is only consulted when it is large in absolute terms (>= 0.4 s for
+    // Work: thread CPU time is only consulted when it is large in absolute terms (>= 0.15 s for
     // <= 256 KiB of input, i.e. three orders of magnitude above a linear scan), and then judged
     // by scaling: a quarter of the input must cost clearly more than a sixteenth of the time.
-    if n >= (1 << 18) && cap == 64 && t_full >= 0.4 {
+    if std::env::var("VERIF_DEBUG").is_ok() {
+        eprintln!("DEBUG armor_lines what={what} n={n} cap={cap} cpu={t_full:.3}s");
+    }
+    if n >= (1 << 18) && cap == 64 && t_full >= 0.15 {
         let quarter = Arc::new(armor_text(what, n / 4));
         let c1 = thread_cpu_seconds();
         let _ = guard(|| armor_parse_all(&quarter, cap));
@@ -875,7 +878,15 @@ fn run_armor_lines(plan: &Value, rec: &mut Rec) {
             rec.violation(
                 "time-not-linear",
                 &format!("armor-line:{what}"),
-                format!("armor input with an unterminated {what}: {n} octets cost {:.2} s of CPU, {} octets {:.3} s (x{:.1} for x4 input: super-linear; read_from_buf re-parses everything buffered so far at every fill of {cap} octets)", t_full, n / 4, t_quarter, t_full / t_quarter),
+                format!(
+                    "armor input with an unterminated {what}: {n} octets cost {:.2} s of CPU, {} octets {:.3} s (x{:.1} for x4 input: super-linear{})",
+                    t_full,
+                    n / 4,
+                    t_quarter,
+                    t_full / t_quarter,
+                    // the three inputs that go through armor::reader::read_from_buf + header_parser
+                    if matches!(what, "header_value" | "header_key" | "leading_text") { format!("; read_from_buf re-parses everything buffered so far at every fill of {cap} octets") } else { String::new() }
+                ),
                 plan.clone(),
             );
         }
